@@ -3,6 +3,7 @@ package main
 // Symbolic execution of go/ssa functions, path by path, producing obligations.
 
 import (
+	"os"
 	"fmt"
 	"go/constant"
 	"go/token"
@@ -1150,6 +1151,24 @@ func (ex *Ex) storeTo(fr *Frame, st *State, addr Val, v Val, vt types.Type, ins 
 	case l.Snap != nil:
 		unsupp("store through element pointer of a non-local slice in %s", fr.Name)
 	case l.Cell != 0:
+		if os.Getenv("GOVC_DBG") != "" && ex.FrameChk {
+			fmt.Fprintf(os.Stderr, "DBG store cell=%d path=%v fn=%s\n", l.Cell, len(l.Path), fr.Name)
+		}
+		if ex.FrameChk {
+			// an element write through a slice VALUE held in a local: the backing array is shared
+			// with whoever produced the slice (the executor models slices as values), so ownership
+			// is decided by the structural def-chain rule on the store's address
+			for _, stp := range l.Path {
+				if stp.IsSliceElem {
+					if sti, ok := ins.(*ssa.Store); ok {
+						if owned, why := ex.W.ownedRoot(sti.Addr, map[ssa.Value]bool{}, 0, false); !owned {
+							ex.frameViolation(fr, st, ins, "element write through a slice that is not owned by this call: "+why)
+						}
+					}
+					break
+				}
+			}
+		}
 		st.cells[l.Cell] = ex.navSet(st.cells[l.Cell], l.Path, nv)
 		if v.Fn != nil && len(l.Path) == 0 {
 			// remember closure identity stored in a local variable
